@@ -453,4 +453,230 @@ theorem mapRes_bipartiteLine (nty ety : Ty) (dual : Bool) (ps : List (Atom × At
     · simp only [if_true] at hp ih' ⊢
       simp [mapRes, bipartiteLine, hp.1, hp.2, ih', Prod.swap]
 
+/-! ### incidence-matrix text -/
+
+/-- the characters `np.savetxt` uses for 0/1 entries -/
+def tokChars : List Char := ['0', '1', '.', 'e', '+']
+
+theorem mem_tokOf {c : Char} {b : Bool} (h : c ∈ tokOf b) : c ∈ tokChars := by
+  cases b <;> simp [tokOf, tok0, tok1, zeros18] at h <;> simp [tokChars] <;> grind
+
+theorem tokOf_ne_nil (b : Bool) : tokOf b ≠ [] := by cases b <;> simp [tokOf, tok0, tok1]
+
+theorem parseTok_tokOf (b : Bool) : parseTok (tokOf b) = .ok b := by
+  cases b <;> simp [parseTok, tokOf, tok0, tok1]
+
+/-- side conditions on delimiter and comment token for the matrix format -/
+structure MatDelimOK (d : Char) (cm : Option Char) : Prop where
+  notTok : d ∉ tokChars
+  notNl : d ≠ '\n'
+  notComment : cm ≠ some d
+  commentNotTok : ∀ c, cm = some c → c ∉ tokChars
+
+theorem chomp_line (l : Text) : chomp (l ++ ['\n']) = l := by
+  unfold chomp; simp
+
+theorem intercalate_ne_nil {d : Char} {a : Text} {t : List Text} (ha : a ≠ []) : [d].intercalate (a :: t) ≠ [] := by
+  intro hb
+  have := head?_intercalate_singleton (d := d) (a := a) (t := t) ha
+  rw [hb] at this
+  cases a with
+  | nil => exact ha rfl
+  | cons c a => simp at this
+
+theorem matrixLine_gen (d : Char) (cm : Option Char) (hd : MatDelimOK d cm) (row : List Bool) (hne : row ≠ []) :
+    matrixLine cm (some d) ([d].intercalate (row.map tokOf) ++ ['\n']) = some (.ok row) := by
+  unfold matrixLine
+  rw [chomp_line]
+  have hcut : cutComment cm ([d].intercalate (row.map tokOf)) = [d].intercalate (row.map tokOf) := by
+    cases cm with
+    | none => rfl
+    | some c =>
+      simp only [cutComment]
+      apply takeWhile_eq_self
+      intro x hx
+      simp only [bne_iff_ne, ne_eq]
+      intro hxc; subst hxc
+      rcases mem_intercalate_singleton hx with hx | ⟨l, hl, hx⟩
+      · exact hd.notComment (by rw [hx])
+      · simp only [List.mem_map] at hl
+        obtain ⟨b, _, rfl⟩ := hl
+        exact hd.commentNotTok x rfl (mem_tokOf hx)
+  simp only [hcut]
+  obtain ⟨b, t, rfl⟩ := List.exists_cons_of_ne_nil hne
+  have hL : ([d].intercalate ((b :: t).map tokOf)).isEmpty = false := by
+    simp only [List.map_cons, List.isEmpty_eq_false_iff]
+    exact intercalate_ne_nil (tokOf_ne_nil b)
+  have hsplit : splitLine (some d) ([d].intercalate ((b :: t).map tokOf)) = (b :: t).map tokOf := by
+    simp only [splitLine]
+    apply List.splitOn_intercalate d _ (by simp)
+    intro l hl
+    simp only [List.mem_map] at hl
+    obtain ⟨x, _, rfl⟩ := hl
+    intro hm; exact hd.notTok (mem_tokOf hm)
+  have h2 : mapRes parseTok ((b :: t).map tokOf) = .ok (b :: t) := by
+    generalize (b :: t) = r
+    induction r with
+    | nil => rfl
+    | cons x r ih => simp only [List.map_cons, mapRes, parseTok_tokOf, Res.bind_ok, ih]
+  simp only [hL, Bool.false_eq_true, if_false, hsplit, h2]
+  simp
+
+theorem nl_not_mem_matrix_line {d : Char} {cm : Option Char} (hd : MatDelimOK d cm) (row : List Bool) :
+    '\n' ∉ [d].intercalate (row.map tokOf) := by
+  intro hx
+  rcases mem_intercalate_singleton hx with hx | ⟨l, hl, hx⟩
+  · exact hd.notNl hx.symm
+  · simp only [List.mem_map] at hl
+    obtain ⟨b, _, rfl⟩ := hl
+    have := mem_tokOf hx
+    simp [tokChars] at this
+
+theorem rows_of_generated_matrix (d : Char) (cm : Option Char) (hd : MatDelimOK d cm) (m : List (List Bool))
+    (hne : ∀ r ∈ m, r ≠ []) :
+    (readLines (fileText (genMatrix d m))).filterMap (matrixLine cm (some d)) = m.map Res.ok := by
+  unfold genMatrix
+  rw [readLines_fileText]
+  · induction m with
+    | nil => rfl
+    | cons r rest ih =>
+      simp only [List.map_cons, List.filterMap_cons]
+      rw [matrixLine_gen d cm hd r (hne r (by simp))]
+      simp only []
+      rw [ih (fun x hx => hne x (by simp [hx]))]
+  · intro l hl
+    simp only [List.mem_map] at hl
+    obtain ⟨r, _, rfl⟩ := hl
+    exact nl_not_mem_matrix_line hd r
+
+theorem mapRes_id_ok {α} (l : List α) : mapRes id (l.map Res.ok) = .ok l := by
+  induction l with
+  | nil => rfl
+  | cons a t ih => simp only [List.map_cons, mapRes, id, Res.bind_ok, ih]
+
+/-- the incidences `from_incidence_matrix` adds: `(i, j)` exactly for the entries that are 1 -/
+theorem mem_pairsOfMatrix (m : List (List Bool)) (q : Atom × Atom) :
+    q ∈ pairsOfMatrix m ↔
+      ∃ (i j : Nat) (row : List Bool), m[i]? = some row ∧ row[j]? = some true ∧ q = (Atom.int i, Atom.int j) := by
+  unfold pairsOfMatrix
+  simp only [List.mem_flatMap, List.mem_filterMap]
+  constructor
+  · rintro ⟨⟨row, i⟩, hr, ⟨b, j⟩, hc, hq⟩
+    rw [List.mem_zipIdx_iff_getElem?] at hr hc
+    simp only at hr hc hq
+    cases b with
+    | false => simp at hq
+    | true =>
+      simp only [if_true, Option.some.injEq] at hq
+      exact ⟨i, j, row, hr, hc, hq.symm⟩
+  · rintro ⟨i, j, row, hr, hc, rfl⟩
+    refine ⟨(row, i), ?_, (true, j), ?_, ?_⟩
+    · rw [List.mem_zipIdx_iff_getElem?]; exact hr
+    · rw [List.mem_zipIdx_iff_getElem?]; exact hc
+    · simp
+
+theorem mem_inc_netOfMatrix (m : List (List Bool)) (i j : Nat) :
+    (Atom.int i, Atom.int j) ∈ (netOfMatrix m).inc ↔ ∃ row, m[i]? = some row ∧ row[j]? = some true := by
+  unfold netOfMatrix
+  rw [mem_inc_netOfPairs, mem_pairsOfMatrix]
+  constructor
+  · rintro ⟨i', j', row, hr, hc, hq⟩
+    simp only [Prod.mk.injEq, Atom.int.injEq, Int.natCast_inj] at hq
+    obtain ⟨rfl, rfl⟩ := hq
+    exact ⟨row, hr, hc⟩
+  · rintro ⟨row, hr, hc⟩; exact ⟨i, j, row, hr, hc, rfl⟩
+
+/-- entry `(i, j)` of the matrix that is written: node `i` (in view order) belongs to edge `j` -/
+theorem incMatrix_entry (h : TNet) (hn : h.nodes ≠ []) (he : h.edges ≠ []) (i j : Nat) :
+    (∃ row, (incMatrix h)[i]? = some row ∧ row[j]? = some true) ↔
+      ∃ n e, h.nodes[i]? = some n ∧ h.edges[j]? = some e ∧ n ∈ e.2 := by
+  have h1 : h.nodes.isEmpty = false := by simpa using hn
+  have h2 : h.edges.isEmpty = false := by simpa using he
+  simp only [incMatrix, h1, h2, Bool.or_self, Bool.false_eq_true, if_false, List.getElem?_map]
+  constructor
+  · rintro ⟨row, hr, hc⟩
+    cases hn' : h.nodes[i]? with
+    | none => simp [hn'] at hr
+    | some n =>
+      simp only [hn', Option.map_some, Option.some.injEq] at hr
+      subst hr
+      simp only [List.getElem?_map] at hc
+      cases he' : h.edges[j]? with
+      | none => simp [he'] at hc
+      | some e =>
+        simp only [he', Option.map_some, Option.some.injEq, decide_eq_true_eq] at hc
+        exact ⟨n, e, rfl, rfl, hc⟩
+  · rintro ⟨n, e, hn', he', hm⟩
+    refine ⟨_, by rw [hn']; rfl, ?_⟩
+    simp [he', hm]
+
+/-! ### JSON object keys -/
+
+/-- a cast that undoes `str` on two labels separates their renderings -/
+theorem render_inj_of_cast {ty : Ty} {a b : Atom} (ha : cast ty (renderAtom a) = .ok a)
+    (hb : cast ty (renderAtom b) = .ok b) (h : renderAtom a = renderAtom b) : a = b := by
+  rw [h, hb] at ha; injection ha with ha; exact ha.symm
+
+theorem nodup_map_render {ty : Ty} {l : List Atom} (hl : l.Nodup)
+    (hc : ∀ a ∈ l, cast ty (renderAtom a) = .ok a) : (l.map renderAtom).Nodup := by
+  induction l with
+  | nil => simp
+  | cons a t ih =>
+    rw [List.nodup_cons] at hl
+    simp only [List.map_cons, List.nodup_cons, List.mem_map, not_exists, not_and]
+    refine ⟨?_, ih hl.2 (fun x hx => hc x (by simp [hx]))⟩
+    intro b hb hr
+    have := render_inj_of_cast (hc b (by simp [hb])) (hc a (by simp)) hr
+    subst this; exact hl.1 hb
+
+theorem foldl_addEdge (es acc : List (Atom × List Atom)) (ns : List Atom)
+    (hids : ((acc ++ es).map (·.1)).Nodup) (hm : ∀ e ∈ es, e.2.Nodup ∧ ∀ n ∈ e.2, n ∈ ns) :
+    es.foldl addEdge ⟨ns, acc⟩ = ⟨ns, acc ++ es⟩ := by
+  induction es generalizing acc with
+  | nil => simp
+  | cons e t ih =>
+    have hnot : acc.any (fun q => decide (q.1 = e.1)) = false := by
+      rw [List.any_eq_false]; intro q hq
+      simp only [decide_eq_true_eq]
+      intro hqe
+      simp only [List.map_append, List.map_cons, List.nodup_append] at hids
+      exact hids.2.2 q.1 (List.mem_map.2 ⟨q, hq, rfl⟩) e.1 (by simp) hqe
+    have hstep : addEdge ⟨ns, acc⟩ e = ⟨ns, acc ++ [e]⟩ := by
+      simp only [addEdge, hnot, Bool.false_eq_true, if_false]
+      rw [foldl_ins_of_subset _ _ (hm e (by simp)).2, dedup_of_nodup (hm e (by simp)).1]
+    simp only [List.foldl_cons, hstep]
+    rw [ih (acc ++ [e]) (by simpa using hids) (fun x hx => hm x (by simp [hx]))]
+    simp
+
+theorem length_foldl_ins_le {α : Type} [DecidableEq α] (l acc : List α) :
+    (l.foldl (fun acc x => ins x acc) acc).length ≤ acc.length + l.length := by
+  induction l generalizing acc with
+  | nil => simp
+  | cons a t ih =>
+    simp only [List.foldl_cons, List.length_cons]
+    have := ih (ins a acc)
+    have h2 : (ins a acc).length ≤ acc.length + 1 := by unfold ins; split <;> simp
+    omega
+
+theorem nodup_of_length_foldl_ins {α : Type} [DecidableEq α] (l acc : List α) (hacc : acc.Nodup)
+    (h : (l.foldl (fun acc x => ins x acc) acc).length = acc.length + l.length) : (acc ++ l).Nodup := by
+  induction l generalizing acc with
+  | nil => simpa using hacc
+  | cons a t ih =>
+    simp only [List.foldl_cons, List.length_cons] at h
+    by_cases ha : a ∈ acc
+    · have : ins a acc = acc := by unfold ins; simp [ha]
+      rw [this] at h
+      have := length_foldl_ins_le t acc
+      omega
+    · have hi : ins a acc = acc ++ [a] := by unfold ins; simp [ha]
+      rw [hi] at h
+      have := ih (acc ++ [a]) (by rw [← hi]; exact nodup_ins hacc) (by simp; omega)
+      simpa using this
+
+/-- `len(dict) == len(ids)` holds only if no two keys collide -/
+theorem nodup_of_length_dedup {α : Type} [DecidableEq α] {l : List α} (h : (dedup l).length = l.length) : l.Nodup := by
+  have := nodup_of_length_foldl_ins l [] List.nodup_nil (by simpa [dedup] using h)
+  simpa using this
+
 end Xgi.C11
